@@ -9,7 +9,10 @@
 EXTENDS CincoConfig, Json
 
 CONSTANTS TheSchema,     \* unbound schema descriptor of the instance
-          Family,        \* further schemas (the generated family, a sequence); <<>> for a single-schema instance
+          FamilyN,       \* number of schemas of the instance (1 for a single-schema instance) ...
+          FamilyAt(_),   \* ... and the i-th one (FamilyAt(1) = TheSchema); an indexed operator, not a
+                         \* sequence: TLC re-evaluates a definition at every reference, and one
+                         \* schema is cheap where nine hundred are not
           Generic,       \* TRUE: candidate pools are derived from the schema (Gen* below)
           SetCands,      \* [<<path, key>> |-> set of candidate values for assignment]
           Trees,         \* candidate trees for load_tree (values of tag "dict")
@@ -26,7 +29,6 @@ vars == <<cfgs, ev, steps, sid, sch>>
 St == [cfgs |-> cfgs, sid |-> sid]
 
 \* the schemas of the instance, in a fixed order (sid indexes it; the harness reads it once)
-FamilySeq == <<TheSchema>> \o SelectSeq(Family, LAMBDA x : x # TheSchema)
 S == sch
 Names == {"c1", "c2"}
 
@@ -100,14 +102,15 @@ KwargsNow   == IF Generic THEN GenKwargs(S) ELSE Kwargs
 ListOpsNow  == IF Generic THEN GenListOps(S) ELSE ListOps
 DictOpsNow  == IF Generic THEN GenDictOps(S) ELSE DictOps
 
-Init ==
-    /\ sid \in DOMAIN FamilySeq
-    /\ sch = Bind(FamilySeq[sid], RootPrefix(FamilySeq[sid]))
+InitOf(i) ==
+    /\ sid = i
+    /\ LET raw == FamilyAt(i) IN sch = Bind(raw, RootPrefix(raw))
     /\ LET d == DefaultCfg(sch, <<>>) IN
        /\ d.ok
        /\ cfgs \in {[c1 |-> d.cfg, c2 |-> d.cfg], [c1 |-> d.cfg, c2 |-> NoneV]}
     /\ ev = [op |-> "Init"]
     /\ steps = 0
+Init == \E i \in 1..FamilyN : InitOf(i)
 
 Outcome(r) == IF r.ok THEN "ok" ELSE r.err.cls
 Built(n) == IsCfg(cfgs[n])
